@@ -57,7 +57,10 @@ C3(A) == IF Len(A) = 3 THEN Det3(A) ELSE RZero
 
 FX == { <<<<-2, 1, 0>>, <<1, -3, 2>>, <<0, 1, -1>>>>, <<<<-1, 2, 1>>, <<0, -2, 1>>, <<1, 0, -3>>>>,
         <<<<0, 1, 0>>, <<-2, -1, 1>>, <<1, 1, -2>>>>, <<<<-3, 0, 0>>, <<0, -1, 0>>, <<0, 0, -2>>>>,
-        <<<<-1, 0, 0>>, <<2, -2, 0>>, <<1, -1, -4>>>>, <<<<1, -2, 0>>, <<2, 1, 1>>, <<0, 1, -5>>>> }
+        <<<<-1, 0, 0>>, <<2, -2, 0>>, <<1, -1, -4>>>>, <<<<1, -2, 0>>, <<2, 1, 1>>, <<0, 1, -5>>>>,
+        (* an undamped oscillator next to a decaying state: with fy = 0 the modes are purely imaginary (real part zero,  *)
+        (* imaginary part not), which the counts by sign of the real part must classify as zero                         *)
+        <<<<0, 4, 0>>, <<-1, 0, 0>>, <<0, 0, -2>>>> }
 FY == { <<1, 0, 2>>, <<-1, 2, 1>>, <<0, 0, 0>> }
 GX == { <<1, 1, 0>>, <<0, -1, 2>>, <<2, 0, 1>> }
 GY == { 1, -2, 3 }
